@@ -1,12 +1,20 @@
 ENGINES = [
     {'name': 'X', 'path': 'lib/xworker.py', 'kind_free_text': 'CrossHair 0.0.110 symbolic execution of the real Python functions (z3 decides every branch), one OS process per condition, vacuity twin per condition, plain-CPython replay of every counterexample',
-     'serves_properties': ['C02', 'C06', 'C09', 'C10', 'C11', 'C13', 'C15', 'C17']},
+     'serves_properties': ['C02', 'C06', 'C09', 'C10', 'C11', 'C13', 'C15', 'C17', 'C19']},
     {'name': 'Z', 'path': 'lib/zworker.py', 'kind_free_text': 'z3 sequence-theory queries over SHA-1 pre-image terms recorded by executing the real digest code on symbolic strings (lib/zsym.py); sat models replayed on the real functions with the real hashlib',
      'serves_properties': ['C02', 'C03', 'C07']},
 ]
 NOTES = ('Technique family: solver-based checking of the real code. Every result is bounded; bounds, stubs and '
          'assumptions are in evidence/<id>.json and DESIGN.md. Exit 2 of ./check = harness error (never a verdict).')
 CLAIMS = {
+    'C19': dict(
+        engine='X',
+        technique='CrossHair+z3 enumeration of archive contents / histories through the real bob archive clean/find code paths (real grammar, real sqlite index) against a reference retention semantics',
+        text='For 3 artifacts (all presence/package/sort-field/reference-edge combinations in the bound), 14 expression lists of the documented grammar (comparisons, boolean operators, LIMIT, ORDER BY ASC/DESC, '
+             'overlapping lists) and index states fresh / warm / stale / after an earlier clean plus uploads: find lists exactly the directly selected artifacts (ties at a LIMIT cut: any maximal choice), clean keeps '
+             'exactly the selected artifacts and what they transitively reference and deletes the rest, --dry-run deletes nothing, and the outcome is the reference outcome on the CURRENT archive content for every index state.',
+        design_ref='DESIGN.md section 4, C19',
+        note='Trusted: reference semantics written from the man page, stub archiver. Outside: more than 3 artifacts, expressions outside the enumerated list, replaced artifacts (same build-id, new content), real archive back-ends.'),
     'C02': dict(
         engine='Z+X',
         technique='z3 collision queries over the Variant-Id pre-image recorded from the real CoreStep.getDigest / mergeScripts on symbolic strings; CrossHair enumeration of variable-list memberships through the real Recipe.prepare',
